@@ -32,7 +32,7 @@ for p in "${patches[@]}"; do
   if [ $b -ne 0 ]; then
     got="exit2"; detail="harness/build error: $(grep -m1 -E '^error' /verif/gensim/build.log)"
   else
-    "$BIN" check --tier quick --seed "${VERIF_SEED:-1}" --evidence "$OUT/ev.json" --replay-dir "$OUT/replays" >"$OUT/log" 2>&1; rc=$?
+    timeout 1500 "$BIN" check --tier quick --seed "${VERIF_SEED:-1}" --evidence "$OUT/ev.json" --replay-dir "$OUT/replays" >"$OUT/log" 2>&1; rc=$?
     viol=$(grep -c '^VIOLATION' "$OUT/log")
     first=$(grep -m1 '^violation:' "$OUT/log" | cut -c1-150)
     rp=$(grep -m1 '^VIOLATION' "$OUT/log" | sed 's/.*replay=//')
